@@ -147,6 +147,18 @@ def run(chk):
            (n_calls, sorted(c for c in crates if c)), n_calls > 600, key='callee-scan-floor')
     chk.note('callee_crates', sorted(c for c in crates if c))
     chk.note('resolved_mir_call_sites', n_calls)
+    # ---- R17.7 / R17.8: nothing a call leaves behind - in the interpolator OR in the caller's buffer - can influence a later answer
+    chk.rule('R17.7', "a batch in which one element fails and a later one succeeds returns that element's error from every batch entry point (no verdict depends on the order of a batch or on the entry point)")
+    from . import entry
+    entry.batch_short_circuit(chk, lib, 'R17.7')
+    chk.rule('R17.8', "the built-in strategies overwrite their target: the value written never mentions what the buffer held before (so a reused buffer cannot carry an earlier answer into a later one)")
+    from ..kernels import run_linear, run_spline, run_bilinear, LIN, SPL, BIL
+    for name, o, path in (('Linear', run_linear(lib, True, 'inside'), LIN), ('CubicSpline', run_spline(lib, 'Yes', 'inside'), SPL),
+                          ('Bilinear', run_bilinear(lib, True, 'inside', 'inside'), BIL)):
+        if o.kind != 'ok':
+            continue        # extraction problems are reported by the numeric checks
+        olds = [a for w in o.m.writes for a in w[1].atoms() if a.endswith('.old')]
+        chk.ob('R17.8', "%s: the written lane value does not depend on the previous content of the target" % name, not olds, lib.body(path)['span'], 'overwrites-' + name)
     if chk.tier == 'thorough' or True:
         from .. import witness
         witness.send_sync(chk)
